@@ -47,6 +47,7 @@ pub fn fork_map<F: Fn(usize, &Collector)>(
         }
         if pid == 0 {
             // child
+            limit_address_space();
             let cc = Collector::new(&c.property, &c.tier);
             let mut part = k;
             while part < n_parts {
@@ -109,6 +110,24 @@ pub fn fork_map<F: Fn(usize, &Collector)>(
         let _ = std::fs::remove_file(format!("{}/c{}-w{}.progress", dir, call, k));
     }
     crashes
+}
+
+/// Cap the worker's address space at its current size plus a margin (default 8 GiB,
+/// VERIF_WORKER_MEM_GB): a subject that starts to materialise a huge grid then fails an
+/// allocation and aborts -- an abnormal worker end the parent sees -- instead of inviting the
+/// kernel's OOM killer to pick some process.
+fn limit_address_space() {
+    let gb: u64 = std::env::var("VERIF_WORKER_MEM_GB").ok().and_then(|s| s.parse().ok()).unwrap_or(8);
+    let pages: u64 = std::fs::read_to_string("/proc/self/statm").ok().and_then(|t| t.split_whitespace().next().and_then(|x| x.parse().ok())).unwrap_or(0);
+    if pages == 0 {
+        return;
+    }
+    let page = unsafe { libc::sysconf(libc::_SC_PAGESIZE) }.max(4096) as u64;
+    let lim = pages * page + (gb << 30);
+    let rl = libc::rlimit { rlim_cur: lim as libc::rlim_t, rlim_max: lim as libc::rlim_t };
+    unsafe {
+        libc::setrlimit(libc::RLIMIT_AS, &rl);
+    }
 }
 
 fn mk_crash(dir: &str, call: usize, k: usize, how: String) -> Crash {
